@@ -1495,6 +1495,217 @@ def r10_sync_delimiter_not_split(run):
     v.flush()
 
 
+# ---------------------------------------------------------------------------
+# R11 minimum length of the chunks of the normalising source iterator (async; shared with C13 as its R9)
+#
+# Consumer side: a delimiter search in a loop over `self._source` that looks at a border fragment
+# `<tail of the buffer> + item[:k]` sees a delimiter that straddles the border only if the item really supplies the k bytes
+# it is asked for, i.e. if every item that is followed by another one has at least k bytes.  k is read from the code and
+# bounded through the method's own delimiter-length guard (k <= chunk_size - s, s in {1, 0}).
+# Producer side: inside the source loop of the normalising iterator every yield hands out at least chunk_size - s bytes;
+# only a yield from which the source loop cannot be reached again (the final flush) may be shorter.
+# ---------------------------------------------------------------------------
+
+def _normalizer(p, rd):
+    """The generator method of the asynchronous reader that `__init__` wraps around the source (anchor: self._source)."""
+    init = p.func(ASYNC + '.__init__')
+    norm = None
+    for s in walk_self(init.node):
+        if isinstance(s, ast.Assign) and any(dotted(t) == SOURCE_IT for t in s.targets):
+            c = strip_await(s.value)
+            if isinstance(c, ast.Call) and isinstance(c.func, ast.Attribute) and dotted(c.func.value) == 'self' and c.func.attr in rd.methods:
+                norm = rd.methods[c.func.attr]
+    if norm is None:
+        raise AnchorError('%s.__init__: %s is not built by a method of the reader' % (ASYNC, SOURCE_IT))
+    return norm
+
+
+def _plain_prelude_envs(rd, f, loop_stmt, start_is_entry):
+    env = Env()
+    env.kind[('v', DELIM)] = 'seq'
+    env.declare(CHUNK, 'int')
+    envs = [env]
+    if start_is_entry:
+        return envs
+    for kind, st in _stable_prelude(rd, f, loop_stmt):
+        if kind == 'assign':
+            for e in envs:
+                e.exec(st)
+        else:
+            envs = [e2 for e in envs for e2 in e.assume(st.test, False)]
+    return envs
+
+
+def _mark_items(env, names):
+    """Loop items / byte-string locals are sequences (so that `a + b` concatenates and len() distributes)."""
+    for nm in names:
+        val = env.vars.get(nm)
+        if val is None:
+            env.kind[('v', nm)] = 'seq'
+        elif isinstance(val, Lin) and val.lone() is not None and val.lone()[0] == 'sym':
+            env.kind[val.lone()] = 'seq'
+
+
+def _lookahead_slack(run, v, rd):
+    """Consumer side.  Returns s such that every look-ahead `item[:k]` of a delimiter search over self._source has
+    k <= chunk_size - s proved (the largest such s in {1, 0}); obligations: k >= len(delimiter) - 1 and k <= chunk_size."""
+    p = run.project
+    dl = Lin.atom(('len', ('v', DELIM)))
+    slack, n_sites = 1, 0
+    for name, f in sorted(rd.methods.items()):
+        if DELIM not in f.params():
+            continue
+        loops = [x for x in walk_self(f.node) if isinstance(x, (ast.For, ast.AsyncFor)) and dotted(strip_await(x.iter)) == SOURCE_IT
+                 and isinstance(x.target, ast.Name)]
+        if not loops:
+            continue
+        finds = [c for c in walk_self(f.node) if _is_delim_find(c)]
+        recv_names = {c.func.value.id for c in finds if isinstance(c.func.value, ast.Name)}
+        items = {lp.target.id for lp in loops}
+
+        def lookaheads(node):
+            """`item[:k]` slices that feed the receiver of a delimiter search (directly, or through the local searched)."""
+            out = []
+            scopes = []
+            if isinstance(node, (ast.Assign, ast.AnnAssign, ast.AugAssign)):
+                tg = node.targets if isinstance(node, ast.Assign) else [node.target]
+                if any(isinstance(t, ast.Name) and t.id in recv_names for t in tg) and node.value is not None:
+                    scopes.append(node.value)
+            for c in walk_self(node):
+                if _is_delim_find(c):
+                    scopes.append(c.func.value)
+            for sc in scopes:
+                for x in ast.walk(sc):
+                    if isinstance(x, ast.Subscript) and isinstance(x.value, ast.Name) and x.value.id in items and isinstance(x.slice, ast.Slice):
+                        out.append(x)
+            return out
+
+        if not any(lookaheads(s) for s in walk_self(f.node) if isinstance(s, (ast.stmt, ast.expr))):
+            continue
+        cfg = cfg_of(f, p)
+        run.use_cfg(cfg)
+        heads = {h: cfg.node(h).stmt for h in loop_heads(cfg)}
+        for start, steps, end in segments(cfg):
+            if end == cfg.xexit:
+                continue
+            wit = flow.describe_path(cfg, [s[0] for s in steps])
+            seen_here = []
+
+            def on_node(env, n, label):
+                _mark_items(env, items)
+                if label == 'exc' or n.kind not in ('stmt', 'test'):
+                    return
+                for x in lookaheads(n.ast):
+                    s = x.slice
+                    if s.lower is not None or s.step is not None or s.upper is None:
+                        v.unknown('%s: look-ahead `%s` is not a prefix `item[:k]` of the next chunk' % (f.qual, short(x, 50)))
+                        continue
+                    k = env.eval(s.upper)
+                    if not isinstance(k, Lin) or k.tainted():
+                        v.unknown('%s: width of the look-ahead `%s` not understood' % (f.qual, short(x, 50)))
+                        continue
+                    seen_here.append((x, k, env.fork()))
+
+            lp = heads.get(start)
+            for e0 in _plain_prelude_envs(rd, f, lp if lp is not None else loops[0], start == cfg.entry):
+                for e in run_steps(e0, cfg, steps, on_node):
+                    pass
+            for (x, k, e) in seen_here:
+                n_sites += 1
+                wide = e.prove_le(dl - Lin.const(1), k)
+                v.note(f, 'look-ahead width @%s' % unparse(x),
+                       'the border fragment searched for the delimiter takes at least len(delimiter) - 1 bytes from the next chunk', wide, x,
+                       'the look-ahead takes %r byte(s) of the next chunk; not provably >= len(delimiter) - 1' % (k,), wit,
+                       'a delimiter that starts in the last byte of one chunk is not found: part content runs through the boundary')
+                s1, s0 = e.prove_le(k, e.var(CHUNK) - Lin.const(1)), e.prove_le(k, e.var(CHUNK))
+                v.note(f, 'look-ahead bounded @%s' % unparse(x),
+                       'the look-ahead into the next chunk is no wider than the minimum length the normalising source iterator guarantees for '
+                       'every chunk but the last (chunk_size)', s1 or s0, x,
+                       'the look-ahead takes %r byte(s) of the next chunk; not provably <= chunk_size: a chunk of the guaranteed minimum length '
+                       'may be too short to complete a delimiter' % (k,), wit,
+                       'a delimiter longer than one chunk straddles three chunks and is never found')
+                if not s1:
+                    slack = 0
+    if n_sites == 0:
+        raise AnchorError('%s: no delimiter search over %s looks ahead into the next chunk (`item[:k]`): the premise on the minimum chunk '
+                          'length has no reader' % (ASYNC, SOURCE_IT))
+    return slack
+
+
+def r11_min_chunk(run):
+    """Every chunk of the normalising source iterator but the last is at least as long as the delimiter look-ahead assumes."""
+    p = run.project
+    v = Verdicts(run)
+    rd = Reader(p, ASYNC)
+    require_attrs(p, ASYNC, [SOURCE_IT])
+    slack = _lookahead_slack(run, v, rd)
+    run.assume('C14 R11: the one-chunk look-ahead of the delimiter search (`<buffer tail> + chunk[:k]`, k = len(delimiter) - 1 <= chunk_size - %d '
+               'by the delimiter-length guard) finds a delimiter that straddles a chunk border only if every chunk of self._source that is followed '
+               'by another one has at least k bytes; the normalising iterator must therefore yield at least chunk_size - %d bytes while items follow'
+               % (slack, slack))
+    f = _normalizer(p, rd)
+    ps = [a for a in f.params() if a != 'self']
+    loops = [x for x in walk_self(f.node) if isinstance(x, (ast.For, ast.AsyncFor)) and isinstance(x.iter, ast.Name) and x.iter.id in ps]
+    if len(loops) != 1 or not isinstance(loops[0].target, ast.Name):
+        raise UnknownIdiom('%s: expected exactly one loop `for item in <source parameter>`' % f.qual)
+    loop = loops[0]
+    cfg = cfg_of(f, p)
+    run.use_cfg(cfg)
+    head = [h for h in loop_heads(cfg) if cfg.node(h).stmt is loop]
+    if len(head) != 1:
+        raise UnknownIdiom('%s: loop head of the source loop not found' % f.qual)
+    head = head[0]
+    seqs = {loop.target.id}
+    for s in walk_self(f.node):
+        if isinstance(s, (ast.Yield,)) and isinstance(s.value, ast.Name):
+            seqs.add(s.value.id)
+        elif isinstance(s, ast.YieldFrom):
+            raise UnknownIdiom('%s: `yield from` is not modelled' % f.qual)
+    n_yields = 0
+    for start, steps, end in segments(cfg):
+        if end == cfg.xexit:
+            continue
+        wit = flow.describe_path(cfg, [s[0] for s in steps])
+
+        def on_node(env, n, label):
+            nonlocal n_yields
+            _mark_items(env, seqs)
+            if label == 'exc' or n.kind != 'stmt':
+                return
+            ys = [x for x in n.walk() if isinstance(x, ast.Yield)]
+            if not ys:
+                return
+            after = [y for (y, l) in cfg.succ[n.id] if l != 'exc']
+            if head not in flow.reachable(cfg, after):
+                return                                          # the final flush: nothing follows
+            for y in ys:
+                n_yields += 1
+                if y.value is None:
+                    v.unknown('%s: bare yield' % f.qual)
+                    continue
+                ln = env.length(env.eval(y.value), short(y.value, 30))
+                need = env.var(CHUNK) - Lin.const(slack)
+                ok = env.prove_le(need, ln)
+                if not ok and (ln.tainted() or (need - ln).tainted()):
+                    v.unknown('%s: length of `%s` not understood (%s)' % (f.qual, short(y.value, 40), '; '.join(env.notes[-2:])))
+                    continue
+                v.note(f, 'minimum chunk length @%s' % unparse(n.ast),
+                       'while more items of the source may follow, the normalising iterator hands out only chunks of at least chunk_size%s bytes '
+                       '(the delimiter search looks ahead one chunk only)' % (' - 1' if slack else ''), ok, n.ast,
+                       'a chunk of %r byte(s) is yielded while the source loop continues; not provably >= %r' % (ln, need), wit,
+                       'ASGI body events [>= 8192 bytes ending inside "\\r\\n--boundary"][1 byte][>= 8192 bytes]: the delimiter spans three chunks, the '
+                       'one-chunk look-ahead of _iter_delimited misses it, the part content runs through the boundary and the next part disappears')
+
+        lp = cfg.node(start).stmt if start != cfg.entry else None
+        for e0 in _plain_prelude_envs(rd, f, lp if lp is not None else loop, start == cfg.entry):
+            _mark_items(e0, seqs)
+            for e in run_steps(e0, cfg, steps, on_node):
+                pass
+    if n_yields == 0:
+        raise AnchorError('%s: no yield inside the source loop' % f.qual)
+    v.flush()
+
+
 def check(run):
     run.assume('C14: only falcon/util/reader.py and falcon/asgi/reader.py are decided; falcon/cyutil/reader.pyx (the compiled twin) is not analysed')
     run.extra['twin_drift_note'] = 'falcon/cyutil/reader.pyx is a hand-maintained Cython twin of falcon/util/reader.py; not parsed, not compared'
@@ -1508,3 +1719,4 @@ def check(run):
     run.rule('R8', r8_cursor_conservation, 'async reader: bytes yielded from the buffer are exactly the bytes the cursor moves over', floor=9)
     run.rule('R9', r9_sync_cursor_conservation, 'sync reader: the cursor stands behind the last byte handed out after every replacement / trim / return', floor=8)
     run.rule('R10', r10_sync_delimiter_not_split, 'sync reader: "enough is buffered" after a failed search keeps len(delimiter) - 1 bytes back', floor=1)
+    run.rule('R11', r11_min_chunk, 'async reader: every chunk of the normalising source iterator but the last covers the one-chunk look-ahead of the delimiter search', floor=3)
